@@ -53,6 +53,10 @@ func init() {
 		Rule: "sequential: case = seeded history of 12-20 operations (new entity with 1-5 features x 0-4 functions, AddEntity, RemoveEntity, re-add, GetOrAddFeature new/existing, AddFunctionType, SetDescriptionString, NextFeatureId, " +
 			"toggle of a NodeManagement subscription, discovery read from one of three peers) on one local device; in every second case a fourth peer whose connection has no write handler (every send to it fails) " +
 			"subscribed to NodeManagement before the others; non-trivial if at least two discovery replies, one AddEntity and one RemoveEntity notification were judged; distinct = distinct operation-kind sequences. " +
+			"Addressing across removals (second per-case PRNG): every entity object carries as first feature a DeviceClassification server feature whose readable manufacturer data names the object; half of the re-additions add - and one removal in four is followed at once by the addition of - a NEW entity object with the address, " +
+			"(type, role) pairs and feature numbers of the removed one but other descriptions and data; after every AddEntity / RemoveEntity / re-addition (and, API only, after every discovery read and before three removals in four) every feature address the case ever announced " +
+			"is resolved through DeviceLocal.FeatureByAddress with and without the device part (must be the feature object of the entity that is part of the device now, nil if there is none) and the probe feature of every entity address is read by a peer with an addressDestination " +
+			"with and without device part (one reply carrying the data of the current entity object; exactly one error result and no reply if no entity with that address is part of the device). " +
 			"conc: case = (k of the rendezvous, number of (type, role) pairs, how many of them exist beforehand), 8 goroutines; non-trivial if the rendezvous at GetOrAddFeature.afterMiss completed with all k goroutines inside the window and two of them asked for the same (type, role); " +
 			"distinct = distinct (configuration, arrival order of the goroutines at the hook). " +
 			"read-conc: case = local device with 4-6 entities; one goroutine sends 40 discovery reads as a peer while another removes and re-adds entities that are not the last of the list (seeded order); every reply must equal one of the " +
@@ -65,6 +69,8 @@ func init() {
 			"message handling and AddEntity/RemoveEntity notifications are synchronous, so the taps are complete when the call returns",
 			"not demanded: the entity description in the announcement, the partial sub-flags of operations, the content of the feature list of a 'removed' notification, datagrams other than detailed discovery data (use case notifications accompany RemoveEntity)",
 			"AddFunctionType is only called once per function and only on server features (it is documented to ignore client features); the heartbeat function is not added (C16)",
+			"'every announced feature address resolves back to that feature' is read for both legal forms of a feature address (the device part of a destination address is optional and defaults to the recipient) and at every moment: an address whose entity has been removed is not announced any more, " +
+				"so it resolves to nothing (FeatureByAddress nil; a read addressed to it is rejected with one error result), and after an entity with the same address has been added again it resolves to the feature of THAT entity object",
 			"the reference for the stack-built entity [0] is read through Features()/Operations(); for all other entities it is what the harness passed to the API",
 			"'each peer subscribed to node management' includes the peers whose entry follows that of a peer with a broken connection: the mute peer (SetupRemoteDevice with a nil writer) is not observed itself, only its effect on the others",
 			"notify-window: 'at every moment' is read causally: a peer that has been handed the notification about entity x on its connection and then sends a read gets an answer that is consistent with that notification (x listed with its features after 'added', not listed after 'removed'); " +
@@ -100,7 +106,11 @@ type c07RE struct {
 	feats   []*c07RF
 	present bool
 	handed  map[uint]bool // every feature number this entity ever handed out
+	tag     string        // unique per entity OBJECT ("incarnation"): the device name its probe feature serves
+	probe   *c07RF        // DeviceClassification server feature with readable manufacturer data (first feature of every entity object)
 }
+
+const c07ProbeFn = model.FunctionTypeDeviceClassificationManufacturerData
 
 func c07Line(addr string, typ model.FeatureTypeType, role model.RoleType, desc *string, ops map[model.FunctionType][2]bool) string {
 	var os []string
@@ -386,6 +396,211 @@ func c07Seq(c *rig.Ctx) {
 		return "", "", false
 	}
 
+	// ---- addressing across removals and re-additions (second PRNG: the histories drawn from c.Rand stay what they were)
+	//
+	// Every entity OBJECT ("incarnation") carries as its first feature a DeviceClassification server feature whose
+	// readable manufacturer data names the incarnation. After every AddEntity / RemoveEntity / re-addition (of the same
+	// object, or of a NEW object with the same entity address and the same feature numbers) every feature address the
+	// case has ever announced is resolved through DeviceLocal.FeatureByAddress with AND without the (optional) device
+	// part: it must be the feature object of the entity that is CURRENTLY part of the device, nil if there is none.
+	// The same is asked through the message path: a read of the manufacturer data whose addressDestination carries resp.
+	// omits the device part is answered with the data of the current incarnation, resp. with one error result (and no
+	// reply) if no entity with that address is part of the device.
+	aux := c10Aux(c, 7)
+	incarnations := 0
+	addProbe := func(e *c07RE) {
+		incarnations++
+		e.tag = fmt.Sprintf("incarnation-%d-of-%s", incarnations, c06Key(e.addr))
+		f := &c07RF{typ: model.FeatureTypeTypeDeviceClassification, role: model.RoleTypeServer, ops: map[model.FunctionType][2]bool{}}
+		f.obj = e.obj.GetOrAddFeature(f.typ, f.role)
+		f.id = uint(*f.obj.Address().Feature)
+		hand(e, f.id, "GetOrAddFeature")
+		s := "probe of " + e.tag
+		f.obj.SetDescriptionString(s)
+		f.desc = &s
+		f.obj.AddFunctionType(c07ProbeFn, true, false)
+		f.ops[c07ProbeFn] = [2]bool{true, false}
+		f.obj.SetData(c07ProbeFn, &model.DeviceClassificationManufacturerDataType{DeviceName: util.Ptr(model.DeviceClassificationStringType(e.tag))})
+		e.feats = append(e.feats, f)
+		e.probe = f
+		trace = append(trace, fmt.Sprintf("  entity %s: GetOrAddFeature(DeviceClassification,server) -> number %d, manufacturer data deviceName=%q", c06Key(e.addr), f.id, e.tag))
+	}
+	// makeTwin builds a NEW entity object with the address of old: the same (type, role) pairs under the same feature
+	// numbers with the same functions, but other descriptions and other probe data.
+	makeTwin := func(old *c07RE) *c07RE {
+		t := &c07RE{addr: old.addr, typ: old.typ, handed: map[uint]bool{}}
+		if aux.Intn(3) == 0 {
+			t.typ = c07EntTypes[aux.Intn(len(c07EntTypes))]
+		}
+		t.obj = spine.NewEntityLocal(local, t.typ, spine.NewAddressEntityType(t.addr), 4*time.Second)
+		incarnations++
+		t.tag = fmt.Sprintf("incarnation-%d-of-%s", incarnations, c06Key(t.addr))
+		trace = append(trace, fmt.Sprintf("new entity OBJECT for the address %s (type %s), features with the numbers of the removed one:", c06Key(t.addr), t.typ))
+		ofs := append([]*c07RF(nil), old.feats...)
+		sort.Slice(ofs, func(i, j int) bool { return ofs[i].id < ofs[j].id })
+		for _, of := range ofs {
+			var id uint
+			for n := 0; n < 64; n++ {
+				id = t.obj.NextFeatureId()
+				hand(t, id, "NextFeatureId")
+				if id >= of.id {
+					break
+				}
+			}
+			if id != of.id {
+				panic(fmt.Sprintf("harness: NextFeatureId of a fresh entity skipped number %d (got %d)", of.id, id))
+			}
+			fl := spine.NewFeatureLocal(id, t.obj, of.typ, of.role)
+			t.obj.AddFeature(fl)
+			nf := &c07RF{obj: fl, id: id, typ: of.typ, role: of.role, ops: map[model.FunctionType][2]bool{}}
+			s := fmt.Sprintf("desc-of-%s-%d", t.tag, id)
+			fl.SetDescriptionString(s)
+			nf.desc = &s
+			var fns []model.FunctionType
+			for fn := range of.ops {
+				fns = append(fns, fn)
+			}
+			sort.Slice(fns, func(i, j int) bool { return fns[i] < fns[j] })
+			for _, fn := range fns {
+				fl.AddFunctionType(fn, of.ops[fn][0], of.ops[fn][1])
+				nf.ops[fn] = of.ops[fn]
+			}
+			if of == old.probe {
+				fl.SetData(c07ProbeFn, &model.DeviceClassificationManufacturerDataType{DeviceName: util.Ptr(model.DeviceClassificationStringType(t.tag))})
+				t.probe = nf
+			}
+			t.feats = append(t.feats, nf)
+			trace = append(trace, fmt.Sprintf("  entity %s: NewFeatureLocal(%d,%s,%s)+AddFeature desc=%s", c06Key(t.addr), id, of.typ, of.role, s))
+		}
+		return t
+	}
+	// current returns the entity that is part of the device under that entity address (nil: none) and its feature
+	// with that number (nil: none)
+	current := func(addrKey string, id uint) (*c07RE, *c07RF) {
+		for _, e := range ents {
+			if e.present && c06Key(e.addr) == addrKey {
+				for _, f := range e.feats {
+					if f.id == id {
+						return e, f
+					}
+				}
+				return e, nil
+			}
+		}
+		return nil, nil
+	}
+	ownerOf := func(obj api.FeatureLocalInterface) string {
+		for _, e := range ents {
+			for _, f := range e.feats {
+				if f.obj == obj {
+					st := "REMOVED"
+					if e.present {
+						st = "current"
+					}
+					return fmt.Sprintf("feature %d (%s/%s, desc=%s) of the %s entity object %q", f.id, f.typ, f.role, c06P(f.desc), st, e.tag)
+				}
+			}
+		}
+		return "a feature the harness did not create"
+	}
+	forms := []struct{ name, dev string }{{"with-device", rig.LocalAddr}, {"without-device", ""}}
+	resolutions, probeReads := 0, 0
+	// resolveAPI: DeviceLocal.FeatureByAddress for every address ever used, with and without device part
+	resolveAPI := func(when string) {
+		seen := map[string]bool{}
+		for _, e0 := range ents {
+			for _, f0 := range e0.feats {
+				k := fmt.Sprintf("%s/%d", c06Key(e0.addr), f0.id)
+				if seen[k] {
+					continue
+				}
+				seen[k] = true
+				ce, cf := current(c06Key(e0.addr), f0.id)
+				for _, fo := range forms {
+					a := rig.FA(fo.dev, e0.addr, f0.id)
+					got := local.FeatureByAddress(a)
+					resolutions++
+					c.Events(1)
+					switch {
+					case cf == nil && !rig.IsNil(got) && ce == nil:
+						fail("resolve/"+fo.name+"/address-of-a-removed-entity-still-resolves", "%s: FeatureByAddress(%s) returns %s; no entity %s is part of the device", when, rkKey(a), ownerOf(got), c06Key(e0.addr))
+					case cf == nil && !rig.IsNil(got):
+						fail("resolve/"+fo.name+"/number-the-current-entity-never-handed-out-resolves", "%s: FeatureByAddress(%s) returns %s; the current entity object %q has no feature %d", when, rkKey(a), ownerOf(got), ce.tag, f0.id)
+					case cf != nil && rig.IsNil(got):
+						fail("resolve/"+fo.name+"/announced-address-does-not-resolve", "%s: FeatureByAddress(%s) is nil; the address is announced for %s", when, rkKey(a), ownerOf(cf.obj))
+					case cf != nil && got != cf.obj:
+						fail("resolve/"+fo.name+"/announced-address-resolves-to-other-feature", "%s: FeatureByAddress(%s) returns %s; the address is announced for %s", when, rkKey(a), ownerOf(got), ownerOf(cf.obj))
+					}
+				}
+			}
+		}
+		// the stack-built entity [0]
+		if e0 := local.Entity(spine.DeviceInformationAddressEntity); e0 != nil {
+			for _, f := range e0.Features() {
+				for _, fo := range forms {
+					a := rig.FA(fo.dev, []uint{0}, uint(*f.Address().Feature))
+					resolutions++
+					c.Events(1)
+					if got := local.FeatureByAddress(a); got != f {
+						fail("resolve/"+fo.name+"/announced-address-resolves-to-other-feature", "%s: FeatureByAddress(%s) does not return the feature %s of entity [0]", when, rkKey(a), f.Address().String())
+					}
+				}
+			}
+		}
+	}
+	// resolveMsg: the same question through the message path, for the probe feature of every entity address ever used
+	resolveMsg := func(when string) {
+		seen := map[string]bool{}
+		for _, e0 := range ents {
+			if e0.probe == nil {
+				continue
+			}
+			k := fmt.Sprintf("%s/%d", c06Key(e0.addr), e0.probe.id)
+			if seen[k] {
+				continue
+			}
+			seen[k] = true
+			ce, cf := current(c06Key(e0.addr), e0.probe.id)
+			p := peers[aux.Intn(len(peers))]
+			for _, fo := range forms {
+				a := rig.FA(fo.dev, e0.addr, e0.probe.id)
+				p.Tap.Take()
+				mc := p.Send(model.CmdClassifierTypeRead, p.NM(), a, false, nil, model.CmdType{DeviceClassificationManufacturerData: &model.DeviceClassificationManufacturerDataType{}})
+				res := rig.Classify(p.Tap.Take(), mc)
+				probeReads++
+				c.Events(int64(1 + len(res.All)))
+				name := "(no deviceName)"
+				if res.Replies == 1 && len(res.All) == 1 && len(res.All[0].Payload.Cmd) == 1 {
+					if md := res.All[0].Payload.Cmd[0].DeviceClassificationManufacturerData; md != nil && md.DeviceName != nil {
+						name = string(*md.DeviceName)
+					}
+				}
+				what := fmt.Sprintf("%s: read of %s with addressDestination %s", when, c07ProbeFn, rig.JS(a))
+				switch {
+				case cf == nil && res.Replies > 0:
+					fail("message/"+fo.name+"/read-to-a-removed-entity-is-answered-with-data", "%s is answered with a reply (deviceName %q); no entity %s is part of the device", what, name, c06Key(e0.addr))
+				case cf == nil && (res.Errors != 1 || len(res.All) != 1):
+					fail("message/"+fo.name+"/read-to-a-removed-entity-not-rejected-once", "%s: %s; no entity %s is part of the device, expected exactly one error result", what, c07RespClass(res), c06Key(e0.addr))
+				case cf != nil && (res.Replies != 1 || len(res.All) != 1):
+					fail("message/"+fo.name+"/read-to-an-announced-feature-not-answered", "%s: %s; the address is announced for the entity object %q", what, c07RespClass(res), ce.tag)
+				case cf != nil && name != ce.tag:
+					fail("message/"+fo.name+"/read-answered-by-a-feature-of-a-removed-entity-object", "%s is answered with deviceName %q; the entity object that is part of the device serves %q", what, name, ce.tag)
+				}
+			}
+		}
+	}
+	checkResolve := func(when string) {
+		if c.Failed() {
+			return
+		}
+		resolveAPI(when)
+		if !c.Failed() {
+			resolveMsg(when)
+		}
+	}
+	twins := 0
+	var addTwin func(old *c07RE, how string) // defined below (needs checkNotify)
+
 	// (c) notifications after AddEntity / RemoveEntity
 	var notesAdd, notesRem, reads int
 	checkNotify := func(e *c07RE, state model.NetworkManagementStateChangeType) {
@@ -538,6 +753,26 @@ func c07Seq(c *rig.Ctx) {
 		if strings.Join(want, "\n") != strings.Join(got, "\n") {
 			fail("read/features/"+c07DiffSig(want, got), "announced features differ from the tree built through the API:\n%s", c06Diff(want, got))
 		}
+		if !c.Failed() {
+			resolveAPI(fmt.Sprintf("after the discovery read of peer%d", pi))
+		}
+	}
+
+	addTwin = func(old *c07RE, how string) {
+		e := makeTwin(old)
+		ents = append(ents, e)
+		twins++
+		for _, p := range peers {
+			p.Tap.Take()
+		}
+		local.AddEntity(e.obj)
+		e.present = true
+		trace = append(trace, fmt.Sprintf("AddEntity %s (the new object %q)", c06Key(e.addr), e.tag))
+		kinds = append(kinds, fmt.Sprintf("%s%d", how, len(e.feats)))
+		checkNotify(e, model.NetworkManagementStateChangeTypeAdded)
+		checkFeatures(e)
+		notesAdd++
+		checkResolve("after AddEntity of a new object for " + c06Key(e.addr))
 	}
 
 	nOps := 12 + r.Intn(9)
@@ -555,8 +790,15 @@ func c07Seq(c *rig.Ctx) {
 			}
 			e := &c07RE{addr: addr, typ: c07EntTypes[r.Intn(len(c07EntTypes))], handed: map[uint]bool{}}
 			e.obj = spine.NewEntityLocal(local, e.typ, spine.NewAddressEntityType(addr), 4*time.Second)
+			for _, x := range ents {
+				if c06Key(x.addr) == c06Key(addr) {
+					c.Count("new_entities_built_for_the_address_of_a_removed_entity_(other_features_under_the_same_numbers)", 1)
+					break
+				}
+			}
 			ents = append(ents, e)
 			trace = append(trace, fmt.Sprintf("new entity %s type %s", c06Key(addr), e.typ))
+			addProbe(e)
 			for n := 1 + r.Intn(5); n > 0; n-- {
 				if t, ro, ok := freshPair(e); ok {
 					newFeature(e, t, ro)
@@ -576,20 +818,38 @@ func c07Seq(c *rig.Ctx) {
 			checkNotify(e, model.NetworkManagementStateChangeTypeAdded)
 			checkFeatures(e)
 			notesAdd++
+			checkResolve("after AddEntity " + c06Key(e.addr))
 		case op < 7 && len(ps) > 0: // remove entity
 			e := ps[r.Intn(len(ps))]
+			// three removals in four are preceded by a lookup of every address in both forms (features added since the
+			// last entity change have not been looked up yet), the fourth is not (whatever was looked up earlier)
+			if aux.Intn(4) > 0 {
+				resolveAPI("before RemoveEntity " + c06Key(e.addr))
+				c.Count("removals_preceded_by_lookups_of_every_address_in_both_forms", 1)
+			}
 			for _, p := range peers {
 				p.Tap.Take()
 			}
 			local.RemoveEntity(e.obj)
 			e.present = false
-			trace = append(trace, fmt.Sprintf("RemoveEntity %s", c06Key(e.addr)))
+			trace = append(trace, fmt.Sprintf("RemoveEntity %s (entity object %q)", c06Key(e.addr), e.tag))
 			kinds = append(kinds, "remove")
 			checkNotify(e, model.NetworkManagementStateChangeTypeRemoved)
 			notesRem++
+			checkResolve("after RemoveEntity " + c06Key(e.addr))
+			// one removal in four is followed at once by the addition of a NEW entity object with the same address and
+			// feature numbers (a device that is unplugged and plugged in again)
+			if aux.Intn(4) == 0 && !c.Failed() {
+				addTwin(e, "replug-new-object")
+			}
 		case op < 8 && len(ab) > 0: // re-add a removed entity object (its numbering continues)
 			e := ab[r.Intn(len(ab))]
 			if addrInUse(e.addr) || len(ps) >= 4 {
+				continue
+			}
+			if aux.Intn(2) == 0 {
+				// not the removed object again, but a NEW entity object with the same address and feature numbers
+				addTwin(e, "readd-new-object")
 				continue
 			}
 			for _, p := range peers {
@@ -597,13 +857,14 @@ func c07Seq(c *rig.Ctx) {
 			}
 			local.AddEntity(e.obj)
 			e.present = true
-			trace = append(trace, fmt.Sprintf("AddEntity %s (again)", c06Key(e.addr)))
+			trace = append(trace, fmt.Sprintf("AddEntity %s (again, entity object %q)", c06Key(e.addr), e.tag))
 			kinds = append(kinds, "readd")
 			checkNotify(e, model.NetworkManagementStateChangeTypeAdded)
 			notesAdd++
+			checkResolve("after AddEntity (again) " + c06Key(e.addr))
 		case op < 10 && len(ents) > 0: // a further feature on an existing entity (added or not)
 			e := ents[r.Intn(len(ents))]
-			if t, ro, ok := freshPair(e); ok && len(e.feats) < 7 {
+			if t, ro, ok := freshPair(e); ok && len(e.feats) < 8 { // 7 + the probe feature
 				newFeature(e, t, ro)
 				kinds = append(kinds, "feature")
 				checkFeatures(e)
@@ -693,6 +954,9 @@ func c07Seq(c *rig.Ctx) {
 	}
 	c.Count("features_created", int64(nf))
 	c.Count("entities_created", int64(len(ents)))
+	c.Count("re_additions_as_a_new_entity_object_with_the_same_address_and_feature_numbers", int64(twins))
+	c.Count("FeatureByAddress_resolutions_judged_(with_and_without_device_part)", int64(resolutions))
+	c.Count("probe_reads_judged_(addressDestination_with_and_without_device_part)", int64(probeReads))
 	if len(trace) > 30 {
 		trace = trace[:30]
 	}
@@ -1311,6 +1575,14 @@ func (x *c07ReactWriter) reader(p *rig.Peer, local *spine.DeviceLocal) {
 						rec.unresolved = append(rec.unresolved, a.String()+" -> "+f.Address().String())
 					} else {
 						rec.resolved++
+					}
+					// the same address without its (optional) device part is the same feature
+					if f2 := local.FeatureByAddress(rkStripDevice(a)); !rig.IsNil(f) && f2 != f {
+						if rig.IsNil(f2) {
+							rec.unresolved = append(rec.unresolved, a.String()+" without device part -> nil")
+						} else {
+							rec.unresolved = append(rec.unresolved, a.String()+" without device part -> another feature object ("+f2.Address().String()+")")
+						}
 					}
 				}
 				// 3. a read addressed to a feature of the announced entity
